@@ -141,6 +141,22 @@ func NewExt(w *prove.World, fn *ssa.Function) *Ext {
 				}
 			}
 		}
+		// a pointer receiver filled through a staging local that is committed with
+		// one whole-struct store (`var d T; d.F = …; *recv = d`): the local's fields
+		// are the receiver's
+		if pt, isPtr := e.Recv.Type().Underlying().(*types.Pointer); isPtr && e.Recv.Referrers() != nil {
+			for _, r := range *e.Recv.Referrers() {
+				st, ok := r.(*ssa.Store)
+				if !ok || st.Addr != e.Recv {
+					continue
+				}
+				if ld, ok := st.Val.(*ssa.UnOp); ok && ld.Op == token.MUL {
+					if al, ok := ld.X.(*ssa.Alloc); ok && types.Identical(deref(al.Type()), pt.Elem()) {
+						e.Roots[al] = ""
+					}
+				}
+			}
+		}
 	}
 	return e
 }
